@@ -48,7 +48,11 @@ RULE = ("event scripts: mostly-valid life cycles (query->reply, query->error->re
         "dispatch + receive errors; two queries with interleaved refusals) + 150 random (3000 thorough) scripts of 3-10 iterations with 1-3 queries, "
         "each pursued with connect / send errors at dispatch (p 0, 0.2 or 0.5) and receive errors (85 % of the visits; NET_ERRS 9:1 other errnos) on the "
         "socket it currently waits on, well past three errors in total, the sockets of attempts beyond the budget offered as ready with an error too; "
-        "every server script of the run (handmade, random, attempt-budget) is judged by the per-query attempt count")
+        "every server script of the run (handmade, random, attempt-budget) is judged by the per-query attempt count; "
+        "reply source (dgram_common.run_c10_reply_source): for EVERY module of sshuttle.methods whose Method overrides send_udp (found by introspection; "
+        "ipfw and tproxy today) 3 handmade + 150 random (2000 thorough) client sessions of the real ondns / dns_done with 2-6 queries of 1-3 askers to 2-3 "
+        "distinct name servers (IPv4, every fourth session IPv6), answers interleaved with later captures in any order; oracle on what leaves the fake "
+        "kernel socket alone: the answer to a forwarded query leaves from the address the query was sent to and goes to the asker")
 TRUSTED_BASE = [
     "the client's channel table is compared in identifier order, without the None-valued keys finished TCP flows leave behind (the code "
     "never iterates over mux.channels and reads it only through .get(): None and absent are the same to it - Model/Dgram.v tcp_end)",
@@ -57,6 +61,10 @@ TRUSTED_BASE = [
     "modelled, not verified: CPython dict insertion order, bytes %-formatting of ints, bytes.split(b',', 2), struct.pack range checks",
     "the fake listener / sender / resolver sockets, pipe files, select() and clock of harness/props/dgram_common.py stand for the kernel",
     "OverflowError of socket.sendto for ports > 65535 is emulated by the fake socket",
+    "reply source: socket.socket as the method module sees it is dgram_common.reply_source_run's KSock (a bound socket keeps its address, a second bind "
+    "is EINVAL, any call on a closed socket is EBADF, sendto of an unbound socket autobinds to the wildcard address); the listener's control message is the "
+    "one the method's option yields (BSD IP_RECVDSTADDR in_addr for a module that defines that constant, Linux IP(V6)_ORIGDSTADDR sockaddr otherwise); "
+    "sockets left open are not judged; method modules that cannot be imported here (windivert without pydivert) are listed in the evidence, not run",
     "resolv.conf histories: the file boundary is `open` in the namespace of sshuttle.helpers (what tests/client/test_helpers.py patches too) serving "
     "the scripted current text of /etc/resolv.conf (FileNotFoundError when scripted absent); the file changes only at scripted points (before an "
     "iteration, right after an attempt's connect), never between get_random_nameserver's read and the connect that follows it; random.shuffle is the "
